@@ -164,14 +164,19 @@ Lemma bits_set_group f n : v16 n -> u16 (flag_set_group f n) = Z.lor (u16 f) Fla
 Proof. intros Hn. unfold FlagFrag. field_tac n Hn. Qed.
 
 (* the bit part: Set / Unset of flag bits (a 16-bit mask) never touch the fragment fields *)
+Ltac set_tac n Hn :=
+  unfold flag_set; apply Z.bits_inj'; intros i Hi;
+  rewrite ?Z.lor_spec, ?len_spec, ?position_spec, ?group_spec, ?tb_u16, ?Z.lor_spec;
+  cmp_split; tb_close;
+  try (rewrite (tb_v16 n) by (exact Hn || lia)); tb_close.
 Lemma len_set f n : v16 n -> flag_len (flag_set f n) = flag_len f.
-Proof. intros Hn. unfold flag_set. field_tac n Hn. Qed.
+Proof. intros Hn. set_tac n Hn. Qed.
 Lemma position_set f n : v16 n -> flag_position (flag_set f n) = flag_position f.
-Proof. intros Hn. unfold flag_set. field_tac n Hn. Qed.
+Proof. intros Hn. set_tac n Hn. Qed.
 Lemma group_set f n : v16 n -> flag_group (flag_set f n) = flag_group f.
-Proof. intros Hn. unfold flag_set. field_tac n Hn. Qed.
+Proof. intros Hn. set_tac n Hn. Qed.
 Lemma bits_set f n : v16 n -> u16 (flag_set f n) = Z.lor (u16 f) n.
-Proof. intros Hn. unfold flag_set. field_tac n Hn. Qed.
+Proof. intros Hn. set_tac n Hn. Qed.
 
 Ltac unset_tac n Hn :=
   unfold flag_unset; apply Z.bits_inj'; intros i Hi;
@@ -248,4 +253,445 @@ Proof.
   - apply lt_pow2_bits; [lia | apply N; apply u_nonneg|]. intros i Hi. rewrite set_position_spec by exact Hn. cmp_split.
   - apply N; apply u_nonneg.
   - apply lt_pow2_bits; [lia | apply N; apply u_nonneg|]. intros i Hi. rewrite set_group_spec by exact Hn. cmp_split.
+Qed.
+
+(* ==== 2. Marshal ================================================================ *)
+
+(* wf, unpacked *)
+Record WF (p : packet) : Prop := mkWF {
+  wf_id : 0 <= p_id p < 256;
+  wf_job : 0 <= p_job p < 65536;
+  wf_flags : 0 <= p_flags p < 18446744073709551616;
+  wf_tags : Forall (fun t => 0 < t < 4294967296) (p_tags p);
+  wf_ntags : len (p_tags p) <= PacketMaxTags;
+  wf_devlen : len (p_dev p) = IDSize;
+  wf_dev0 : exists b r, p_dev p = b :: r /\ b <> 0;
+  wf_paylen : len (p_pay p) < 9223372036854775808 }.
+
+Lemma wf_WF p : wf p = true -> WF p.
+Proof.
+  unfold wf. rewrite !andb_true_iff. intros [[[[[[[[[[[[A B] C] D] E] F] G] H] I] J] K] L] M].
+  constructor; try lia.
+  - rewrite forallb_forall in G. apply Forall_forall. intros t Ht. specialize (G t Ht). unfold nonzero_tag in G. lia.
+  - destruct (p_dev p) as [|b r]; [discriminate|]. exists b, r. split; [reflexivity|]. intros ->. discriminate.
+Qed.
+
+Lemma write_tags_ok ts : Forall (fun t => 0 < t < 4294967296) ts -> write_tags ts = Ok (concat (map be32 ts)).
+Proof.
+  induction 1 as [|t ts Ht _ IH]; [reflexivity|]. cbn [write_tags map concat].
+  replace (t =? 0) with false by lia. rewrite IH. reflexivity.
+Qed.
+
+Theorem marshal_wf p : wf p = true -> marshal p = Ok (wire p).
+Proof.
+  intros H. apply wf_WF in H. destruct H. unfold marshal, write_header, write_body, wire.
+  replace (PacketMaxTags <? len (p_tags p)) with false by lia. cbn [bind].
+  rewrite write_tags_ok by assumption. reflexivity.
+Qed.
+
+(* the number of length bytes after the class byte *)
+Definition len_bytes (l : Z) : Z :=
+  if l =? 0 then 0 else if l <? 256 then 1 else if l <? 65536 then 2 else if l <? 4294967296 then 4 else 8.
+
+Lemma len_prefix_length l : len (len_prefix l) = 1 + len_bytes l.
+Proof.
+  unfold len_prefix, len_bytes, LimitSmall, LimitMedium, LimitLarge.
+  destruct (l =? 0); [reflexivity|].
+  destruct (l <? 256); [reflexivity|].
+  destruct (l <? 65536); [reflexivity|].
+  destruct (l <? 4294967296); reflexivity.
+Qed.
+
+Lemma len_concat_be32 ts : len (concat (map be32 ts)) = 4 * len ts.
+Proof.
+  induction ts as [|t ts IH]; [reflexivity|]. cbn [map concat]. rewrite len_app, len_cons, IH, len_be32. lia.
+Qed.
+
+Lemma header_length p : len (p_dev p) = IDSize ->
+  len (header_bytes p) = PacketHeaderSize + len_bytes (len (p_pay p)).
+Proof.
+  intros H. unfold header_bytes. rewrite !len_app, H, len_prefix_length, !len_be16, len_be64.
+  unfold IDSize, PacketHeaderSize. rewrite len_cons, len_nil. lia.
+Qed.
+
+(* 46 + length bytes + 4 * tags + payload *)
+Theorem marshal_length p b : wf p = true -> marshal p = Ok b ->
+  len b = PacketHeaderSize + len_bytes (len (p_pay p)) + 4 * len (p_tags p) + len (p_pay p).
+Proof.
+  intros H E. rewrite marshal_wf in E by exact H. injection E as <-. apply wf_WF in H. destruct H.
+  unfold wire. rewrite !len_app, header_length, len_concat_be32 by assumption. lia.
+Qed.
+
+(* Size() against the real length: never smaller for a non-empty payload; on an empty payload it
+   ignores the tags (recorded) *)
+Lemma size_ge_marshal p b : wf p = true -> marshal p = Ok b -> p_pay p <> [] -> len b <= size p.
+Proof.
+  intros H E Hne. rewrite (marshal_length p b H E). unfold size, len_bytes, PacketHeaderSize, LimitSmall, LimitMedium, LimitLarge.
+  assert (0 < len (p_pay p)). { destruct (p_pay p); [contradiction|]. rewrite len_cons. pose proof (len_nonneg l). lia. }
+  pose proof (len_nonneg (p_tags p)).
+  replace (len (p_pay p) =? 0) with false by lia.
+  destruct (len (p_pay p) <? 256) eqn:A, (len (p_pay p) <? 65536) eqn:B, (len (p_pay p) <? 4294967296) eqn:C;
+  destruct (len (p_pay p) + 46 + 4 * len (p_tags p) <? 256) eqn:A', (len (p_pay p) + 46 + 4 * len (p_tags p) <? 65536) eqn:B',
+           (len (p_pay p) + 46 + 4 * len (p_tags p) <? 4294967296) eqn:C'; lia.
+Qed.
+Lemma size_empty_ignores_tags p b : wf p = true -> marshal p = Ok b -> p_pay p = [] ->
+  size p = PacketHeaderSize /\ len b = PacketHeaderSize + 4 * len (p_tags p).
+Proof.
+  intros H E Hp. rewrite (marshal_length p b H E). unfold size, len_bytes. rewrite Hp. cbn. lia.
+Qed.
+
+(* ==== 3. Unmarshal over short reads ================================================ *)
+
+(* a reader g CONSUMES exactly `bytes` and yields a: whatever follows, however the stream is split *)
+Definition consumes {A} (g : src -> res (A * src)) (bytes : list Z) (a : A) : Prop :=
+  forall s rest, no_empty s -> concat s = bytes ++ rest ->
+  exists s', g s = Ok (a, s') /\ concat s' = rest /\ no_empty s'.
+
+Lemma read_full_exact bytes n : len bytes = n ->
+  consumes (fun s => read_full (src_fuel s n) n s []) bytes bytes.
+Proof.
+  intros Hn s rest Hs Hc.
+  destruct (read_full_ok s (src_fuel s n) n [] Hs) as (s' & E & C & N).
+  - unfold src_fuel. lia.
+  - rewrite Hc, len_app. pose proof (len_nonneg rest). lia.
+  - exists s'. rewrite E, C, Hc, take_app_exact, drop_app_exact by exact Hn. repeat split. exact N.
+Qed.
+
+Lemma read_device_ok d b r : len d = IDSize -> d = b :: r -> b <> 0 -> consumes read_device d d.
+Proof.
+  intros Hl Hd Hb s rest Hs Hc. unfold read_device.
+  destruct (read_full_exact d IDSize Hl s rest Hs Hc) as (s' & E & C & N). rewrite E. cbn [bind].
+  exists s'. rewrite Hd at 1. replace (b =? 0) with false by lia. repeat split; assumption.
+Qed.
+
+Lemma parse_fixed_ok p c : 0 <= p_id p < 256 -> 0 <= p_job p < 65536 -> 0 <= p_flags p < 18446744073709551616 ->
+  0 <= len (p_tags p) < 65536 ->
+  parse_fixed (fixed14 p c) = Ok (p_id p, p_job p, p_flags p, len (p_tags p), c).
+Proof.
+  intros A B C D. unfold parse_fixed, fixed14.
+  change [u8 (p_id p)] with (enc_u8 (p_id p)). rewrite rd_u8_enc by exact A. cbn [bind].
+  change (be16 (p_job p)) with (enc_u16 (p_job p)). rewrite rd_u16_enc by exact B. cbn [bind].
+  change (be64 (p_flags p)) with (enc_u64 (p_flags p)). rewrite rd_u64_enc by exact C. cbn [bind].
+  change (be16 (len (p_tags p))) with (enc_u16 (len (p_tags p))). rewrite rd_u16_enc by exact D. cbn [bind rd_u8].
+  reflexivity.
+Qed.
+
+(* the class byte and the length bytes of writeHeader, as readHeader's switch understands them *)
+Lemma len_prefix_spec l : 0 <= l < 18446744073709551616 ->
+  exists c lb, len_prefix l = c :: lb /\ class_width c = Ok (len lb) /\ of_be lb 0 = l.
+Proof.
+  intros H. unfold len_prefix, LimitSmall, LimitMedium, LimitLarge.
+  destruct (Z.eqb_spec l 0) as [->|E0]; [exists 0, []; repeat split|].
+  destruct (Z.ltb_spec l 256); [exists 1, [u8 l]; repeat split; cbn [of_be]; rewrite u8_small by lia; lia|].
+  destruct (Z.ltb_spec l 65536); [exists 3, (be16 l); repeat split; apply of_be_be16; lia|].
+  destruct (Z.ltb_spec l 4294967296); [exists 5, (be32 l); repeat split; apply of_be_be32; lia|].
+  exists 7, (be64 l); repeat split; apply of_be_be64; lia.
+Qed.
+
+Lemma class_width_nonneg c w : class_width c = Ok w -> 0 <= w.
+Proof.
+  unfold class_width. destruct (c =? 0); [intros [= <-]; lia|]. destruct (c =? 1); [intros [= <-]; lia|].
+  destruct (c =? 3); [intros [= <-]; lia|]. destruct (c =? 5); [intros [= <-]; lia|].
+  destruct (c =? 7); [intros [= <-]; lia | discriminate].
+Qed.
+
+Lemma read_header_ok p : WF p ->
+  consumes read_header (header_bytes p) (p_dev p, p_id p, p_job p, p_flags p, len (p_tags p), len (p_pay p)).
+Proof.
+  intros [A B C D E F (b0 & r0 & Hd & Hb0) G] s rest Hs Hc.
+  pose proof (len_nonneg (p_pay p)) as Lp. pose proof (len_nonneg (p_tags p)) as Lt. unfold PacketMaxTags in E.
+  destruct (len_prefix_spec (len (p_pay p))) as (c & lb & Ep & Ew & El); [lia|].
+  assert (Hh : header_bytes p ++ rest = p_dev p ++ (fixed14 p c ++ (lb ++ rest))).
+  { unfold header_bytes, fixed14. rewrite Ep. rewrite <- !app_assoc. cbn [app]. reflexivity. }
+  rewrite Hh in Hc. unfold read_header.
+  destruct (read_device_ok (p_dev p) b0 r0 F Hd Hb0 s _ Hs Hc) as (s1 & E1 & C1 & N1). rewrite E1. cbn [bind].
+  destruct (read_full_exact (fixed14 p c) 14 (eq_refl _) s1 _ N1 C1) as (s2 & E2 & C2 & N2). rewrite E2. cbn [bind].
+  rewrite parse_fixed_ok by lia. cbn [bind]. rewrite Ew. cbn [bind].
+  destruct (read_full_exact lb (len lb) (eq_refl _) s2 _ N2 C2) as (s3 & E3 & C3 & N3). rewrite E3. cbn [bind].
+  rewrite El. exists s3. repeat split; assumption.
+Qed.
+
+Lemma read_tags_ok ts : Forall (fun t => 0 < t < 4294967296) ts ->
+  consumes (read_tags (length ts)) (concat (map be32 ts)) ts.
+Proof.
+  induction 1 as [|t ts Ht _ IH]; intros s rest Hs Hc.
+  - exists s. repeat split; assumption.
+  - cbn [length read_tags map concat] in *. rewrite <- app_assoc in Hc.
+    destruct (read_full_exact (be32 t) 4 (eq_refl _) s _ Hs Hc) as (s1 & E1 & C1 & N1). rewrite E1. cbn [bind].
+    rewrite of_be_be32 by lia. replace (t =? 0) with false by lia.
+    destruct (IH s1 rest N1 C1) as (s2 & E2 & C2 & N2). rewrite E2. cbn [bind].
+    exists s2. repeat split; assumption.
+Qed.
+
+(* ---- the payload loop: never asks for more than is still owed, so nothing is over-read -- *)
+Lemma len_drop {A} (l : list A) k : 0 <= k <= len l -> len (drop k l) = len l - k.
+Proof. intros. unfold len, drop in *. rewrite skipn_length. lia. Qed.
+Lemma nonempty_len {A} (l : list A) : l <> [] <-> 0 < len l.
+Proof. destruct l; [split; [contradiction | cbn; lia] | split; [intros _; rewrite len_cons; pose proof (len_nonneg l); lia | discriminate]]. Qed.
+Lemma is_nil_false {A} (l : list A) : 0 < len l -> is_nil l = false.
+Proof. destruct l; [cbn; lia | reflexivity]. Qed.
+Lemma length_len {A} (l : list A) : Z.of_nat (length l) = len l.
+Proof. reflexivity. Qed.
+
+Lemma read_body_ok : forall fuel s k acc first,
+  no_empty s -> (length s + length (concat s) < fuel)%nat -> k <= len (concat s) ->
+  exists s', read_body fuel k s acc first = Ok (acc ++ take k (concat s), s') /\
+             concat s' = drop k (concat s) /\ no_empty s'.
+Proof.
+  induction fuel as [|fuel IH]; intros s k acc first Hs Hf Hk; [lia|].
+  destruct (Z.leb_spec k 0) as [Hk0|Hk0].
+  - exists s. cbn [read_body]. replace (k <=? 0) with true by lia.
+    rewrite take_nonpos, drop_nonpos, app_nil_r by lia. repeat split. exact Hs.
+  - cbn [read_body]. replace (k <=? 0) with false by lia.
+    destruct s as [|c rest]; [cbn [concat] in Hk; rewrite len_nil in Hk; lia|].
+    inversion Hs as [|? ? Hc Hrest]; subst. apply nonempty_len in Hc.
+    cbn [concat] in *. rewrite len_app in Hk. rewrite app_length in Hf. cbn [length] in Hf.
+    set (m := Z.min k bufSize). assert (Hm : 1 <= m <= k) by (unfold m, bufSize; lia).
+    cbn [read1]. destruct (Z.leb_spec (len c) m) as [Hle|Hgt].
+    + rewrite is_nil_false by exact Hc.
+      destruct (IH rest (k - len c) (acc ++ c) false Hrest) as (s' & E & C & N); [lia | lia |].
+      exists s'. rewrite E, take_take_app, drop_drop_app, app_assoc by lia. repeat split; assumption.
+    + assert (Hl : len (take m c) = m) by (apply len_take; lia).
+      rewrite is_nil_false by lia. rewrite Hl.
+      assert (Hd : len (drop m c) = len c - m) by (apply len_drop; lia).
+      destruct (IH (drop m c :: rest) (k - m) (acc ++ take m c) false) as (s' & E & C & N).
+      * constructor; [apply nonempty_len; lia | exact Hrest].
+      * cbn [concat length]. rewrite app_length. unfold len in Hd, Hc. lia.
+      * cbn [concat]. rewrite len_app. lia.
+      * exists s'. rewrite E. cbn [concat] in *.
+        assert (T : take k (c ++ concat rest) = take m c ++ take (k - m) (drop m c ++ concat rest)).
+        { rewrite <- (take_drop_app c m) at 1. rewrite <- app_assoc, take_take_app by lia. rewrite Hl. reflexivity. }
+        assert (D : drop k (c ++ concat rest) = drop (k - m) (drop m c ++ concat rest)).
+        { rewrite <- (take_drop_app c m) at 1. rewrite <- app_assoc, drop_drop_app by lia. rewrite Hl. reflexivity. }
+        rewrite T, D, app_assoc. repeat split; assumption.
+Qed.
+
+Lemma read_body_exact pay : pay <> [] ->
+  consumes (fun s => read_body (body_fuel s) (len pay) s [] true) pay pay.
+Proof.
+  intros Hp s rest Hs Hc.
+  destruct (read_body_ok (body_fuel s) s (len pay) [] true Hs) as (s' & E & C & N).
+  - unfold body_fuel. lia.
+  - rewrite Hc, len_app. pose proof (len_nonneg rest). lia.
+  - exists s'. rewrite E, C, Hc, take_app_exact, drop_app_exact by reflexivity. repeat split. exact N.
+Qed.
+
+(* THE round trip of the wire form: for every split of (wire p ++ rest) into non-empty short
+   reads the reader returns exactly p and leaves exactly rest *)
+Lemma unmarshal_wire p : wf p = true -> consumes unmarshal (wire p) p.
+Proof.
+  intros H s rest Hs Hc. apply wf_WF in H. pose proof H as W. destruct H as [A B C D E F G I].
+  unfold wire in Hc. rewrite <- !app_assoc in Hc. unfold unmarshal.
+  destruct (read_header_ok p W s _ Hs Hc) as (s1 & E1 & C1 & N1). rewrite E1. cbn [bind].
+  unfold len at 1. rewrite Nat2Z.id.
+  destruct (read_tags_ok (p_tags p) D s1 _ N1 C1) as (s2 & E2 & C2 & N2). rewrite E2. cbn [bind].
+  destruct (Z.eqb_spec (len (p_pay p)) 0) as [Z0|Z0].
+  - assert (Hp : p_pay p = []) by (destruct (p_pay p); [reflexivity | rewrite len_cons in Z0; pose proof (len_nonneg l); lia]).
+    cbn [bind]. rewrite Hp in C2. exists s2. destruct p; cbn in *; subst. repeat split; assumption.
+  - assert (Hp : p_pay p <> []) by (intros Hp; rewrite Hp in Z0; apply Z0; reflexivity).
+    destruct (read_body_exact (p_pay p) Hp s2 rest N2 C2) as (s3 & E3 & C3 & N3). rewrite E3. cbn [bind].
+    exists s3. destruct p; cbn in *. repeat split; assumption.
+Qed.
+
+Theorem unmarshal_marshal p b s rest :
+  wf p = true -> marshal p = Ok b -> no_empty s -> concat s = b ++ rest ->
+  exists s', unmarshal s = Ok (p, s') /\ concat s' = rest /\ no_empty s'.
+Proof.
+  intros H E. rewrite marshal_wf in E by exact H. injection E as <-. apply unmarshal_wire. exact H.
+Qed.
+
+(* ==== 4. concatenated packets on one stream ============================================ *)
+Lemma wire_nonempty p : wf p = true -> wire p <> [].
+Proof.
+  intros H. apply wf_WF in H. destruct H as [_ _ _ _ _ _ (b & r & Hd & _) _].
+  unfold wire, header_bytes. rewrite Hd. discriminate.
+Qed.
+
+Lemma no_empty_concat_nil s : no_empty s -> concat s = [] -> s = [].
+Proof.
+  intros Hs Hc. destruct s as [|c r]; [reflexivity|]. inversion Hs; subst.
+  cbn [concat] in Hc. apply app_eq_nil in Hc. tauto.
+Qed.
+
+Lemma unmarshal_many_wire ps : Forall (fun p => wf p = true) ps ->
+  forall fuel s, (length ps <= fuel)%nat -> no_empty s -> concat s = concat (map wire ps) ->
+  unmarshal_many fuel s = Ok ps.
+Proof.
+  induction 1 as [|p ps Hp _ IH]; intros fuel s Hf Hs Hc.
+  - cbn [map concat] in Hc. rewrite (no_empty_concat_nil s Hs Hc). destruct fuel; reflexivity.
+  - cbn [map concat length] in *. destruct fuel as [|fuel]; [lia|].
+    destruct s as [|c r]. { cbn [concat] in Hc. symmetry in Hc. apply app_eq_nil in Hc. destruct (wire_nonempty p Hp). tauto. }
+    cbn [unmarshal_many].
+    destruct (unmarshal_wire p Hp (c :: r) _ Hs Hc) as (s' & E & C & N). rewrite E. cbn [bind].
+    rewrite (IH fuel s') by (lia || assumption). reflexivity.
+Qed.
+
+Lemma count_le_bytes ps : Forall (fun p => wf p = true) ps -> (length ps <= length (concat (map wire ps)))%nat.
+Proof.
+  induction 1 as [|p ps Hp _ IH]; [cbn; lia|]. cbn [map concat length]. rewrite app_length.
+  pose proof (wire_nonempty p Hp). destruct (wire p); [contradiction | cbn [length]; lia].
+Qed.
+
+(* packets written one after another on one stream are read back one after another, for every
+   split of the stream into non-empty short reads; the fuel is the one `check` uses (CMany) *)
+Theorem packets_concat ps bs s :
+  Forall (fun p => wf p = true) ps -> Forall2 (fun p b => marshal p = Ok b) ps bs ->
+  no_empty s -> concat s = concat bs ->
+  unmarshal_many (S (length (concat s))) s = Ok ps.
+Proof.
+  intros Hw Hm Hs Hc.
+  assert (Hb : bs = map wire ps).
+  { clear Hc. induction Hm as [|p b ps bs E _ IH]; [reflexivity|]. inversion Hw; subst.
+    rewrite marshal_wf in E by assumption. injection E as <-. cbn [map]. f_equal. apply IH. assumption. }
+  subst bs. apply unmarshal_many_wire; try assumption. rewrite Hc. pose proof (count_le_bytes ps Hw). lia.
+Qed.
+
+(* ==== 5. the nested stream form ========================================================== *)
+Record WFS (p : packet) : Prop := mkWFS { wfs_wf : WF p; wfs_pay : len (p_pay p) <= MaxSlice }.
+Lemma wf_stream_WFS p : wf_stream p = true -> WFS p.
+Proof. unfold wf_stream. rewrite andb_true_iff. intros [A B]. split; [apply wf_WF; exact A | lia]. Qed.
+
+Lemma rd_dev_ok d b r rest : len d = IDSize -> d = b :: r -> b <> 0 -> rd_dev (d ++ rest) = Ok (d, rest).
+Proof.
+  intros Hl Hd Hb. unfold rd_dev. rewrite rd_fixed_app by exact Hl. cbn [bind]. rewrite Hd at 1.
+  replace (b =? 0) with false by lia. reflexivity.
+Qed.
+
+Lemma rd_tags_ok ts : Forall (fun t => 0 < t < 4294967296) ts -> forall rest,
+  rd_tags (length ts) (concat (map enc_u32 ts) ++ rest) = Ok (ts, rest).
+Proof.
+  induction 1 as [|t ts Ht _ IH]; intros rest; [reflexivity|].
+  cbn [length rd_tags map concat]. rewrite <- app_assoc, rd_u32_enc by lia. cbn [bind].
+  replace (t =? 0) with false by lia. rewrite IH. reflexivity.
+Qed.
+
+Lemma take_all {A} (l : list A) n : len l <= n -> take n l = l.
+Proof. intros. unfold take, len in *. apply firstn_all2. lia. Qed.
+
+(* the flat (Chunk) reader: exact consumption, so nested packets follow one another *)
+Theorem unmarshal_stream_marshal_stream p rest :
+  wf_stream p = true -> unmarshal_stream (marshal_stream p ++ rest) = Ok (p, rest).
+Proof.
+  intros H. apply wf_stream_WFS in H. destruct H as [[A B C D E F (b0 & r0 & Hd & Hb0) G] I].
+  pose proof (len_nonneg (p_tags p)) as Lt. unfold PacketMaxTags in E.
+  unfold marshal_stream, unmarshal_stream. rewrite <- !app_assoc.
+  rewrite rd_u8_enc by exact A. cbn [bind]. rewrite rd_u16_enc by exact B. cbn [bind].
+  rewrite u16_small by lia. rewrite rd_u16_enc by lia. cbn [bind].
+  rewrite rd_u64_enc by exact C. cbn [bind].
+  rewrite (rd_dev_ok (p_dev p) b0 r0) by assumption. cbn [bind].
+  unfold PacketMaxTags. rewrite take_all by lia. rewrite Z.min_l by lia.
+  unfold len at 1. rewrite Nat2Z.id. rewrite rd_tags_ok by exact D. cbn [bind].
+  rewrite rd_bytes_enc by exact I. cbn [bind].
+  unfold tags_pad, PacketMaxTags. rewrite Z.min_l by lia. rewrite Z.sub_diag. cbn [Z.to_nat repeat]. rewrite app_nil_r.
+  destruct p; reflexivity.
+Qed.
+
+Lemma marshal_stream_nonempty p : marshal_stream p <> [].
+Proof. unfold marshal_stream, enc_u8. discriminate. Qed.
+
+Theorem stream_packets_concat ps : Forall (fun p => wf_stream p = true) ps ->
+  forall fuel, (length ps <= fuel)%nat ->
+  unmarshal_stream_many fuel (concat (map marshal_stream ps)) = Ok ps.
+Proof.
+  induction 1 as [|p ps Hp _ IH]; intros fuel Hf; [destruct fuel; reflexivity|].
+  cbn [map concat length] in *. destruct fuel as [|fuel]; [lia|].
+  pose proof (marshal_stream_nonempty p) as Hn.
+  destruct (marshal_stream p ++ concat (map marshal_stream ps)) as [|x l] eqn:Ex.
+  { apply app_eq_nil in Ex. tauto. }
+  cbn [unmarshal_stream_many]. rewrite <- Ex. rewrite unmarshal_stream_marshal_stream by exact Hp. cbn [bind].
+  rewrite IH by lia. reflexivity.
+Qed.
+(* with the fuel `check` uses (CStreamMany) *)
+Corollary stream_packets_concat_check ps : Forall (fun p => wf_stream p = true) ps ->
+  let b := concat (map marshal_stream ps) in unmarshal_stream_many (S (length b)) b = Ok ps.
+Proof.
+  intros H b. apply stream_packets_concat; [exact H|]. subst b.
+  assert (length ps <= length (concat (map marshal_stream ps)))%nat; [|lia].
+  clear H. induction ps as [|p ps IH]; [cbn; lia|]. cbn [map concat length]. rewrite app_length.
+  pose proof (marshal_stream_nonempty p). destruct (marshal_stream p); [contradiction | cbn [length]; lia].
+Qed.
+
+(* ---- the stream reader (data.NewReader over short reads) agrees with the flat reader on
+   EVERY input (also malformed ones; error codes aside), for every split into non-empty reads -- *)
+Lemma agree_fixed n : 0 <= n -> agree (rd_fixed n) (fun s => read_full (src_fuel s n) n s []).
+Proof.
+  intros Hn s Hs. unfold rd_fixed.
+  destruct (Z.ltb_spec (len (concat s)) n) as [Hlt|Hge].
+  - destruct (read_full_short s (src_fuel s n) n [] Hs) as (e & ->); [unfold src_fuel; lia | exact Hlt | exact I].
+  - destruct (read_full_ok s (src_fuel s n) n [] Hs) as (s' & -> & Hc & Hn'); [unfold src_fuel; lia | lia |].
+    cbn [app]. repeat split; assumption.
+Qed.
+
+Lemma agree_dev : agree rd_dev read_device.
+Proof.
+  unfold rd_dev, read_device.
+  apply (agree_bind (rd_fixed IDSize) (fun s => read_full (src_fuel s IDSize) IDSize s [])
+    (fun d r => match d with b :: _ => if b =? 0 then Err ErrNoProgress else Ok (d, r) | [] => Err ErrOther end)
+    (fun d r => match d with b :: _ => if b =? 0 then Err ErrNoProgress else Ok (d, r) | [] => Err ErrOther end)).
+  - apply agree_fixed. unfold IDSize. lia.
+  - intros [|b d]; [apply agree_err|]. destruct (b =? 0); [apply agree_err | apply agree_ret].
+Qed.
+
+Lemma agree_tags n : agree (rd_tags n) (srd_tags n).
+Proof.
+  induction n as [|n IH]; cbn [rd_tags srd_tags]; [apply agree_ret|].
+  apply (agree_bind rd_u32 (srd_uN 4)
+    (fun t r => if t =? 0 then Err ErrMalformedTag else do '(ts, r') <- rd_tags n r; Ok (t :: ts, r'))
+    (fun t r => if t =? 0 then Err ErrMalformedTag else do '(ts, r') <- srd_tags n r; Ok (t :: ts, r'))).
+  - apply agree_uN. lia.
+  - intros t. destruct (t =? 0); [apply agree_err|].
+    apply (agree_bind (rd_tags n) (srd_tags n) (fun ts s => Ok (t :: ts, s)) (fun ts s => Ok (t :: ts, s))); [exact IH | intros; apply agree_ret].
+Qed.
+
+Theorem stream_readers_agree : agree unmarshal_stream unmarshal_srd.
+Proof.
+  unfold unmarshal_stream, unmarshal_srd.
+  apply (agree_bind rd_u8 srd_u8
+    (fun id r1 => do '(job, r2) <- rd_u16 r1; do '(t, r3) <- rd_u16 r2; do '(fl, r4) <- rd_u64 r3; do '(d, r5) <- rd_dev r4;
+       do '(ts, r6) <- rd_tags (Z.to_nat (Z.min t PacketMaxTags)) r5; do '(pay, r7) <- rd_bytes r6;
+       Ok (mkP id job fl (ts ++ tags_pad t) d pay, r7))
+    (fun id r1 => do '(job, r2) <- srd_uN 2 r1; do '(t, r3) <- srd_uN 2 r2; do '(fl, r4) <- srd_uN 8 r3; do '(d, r5) <- read_device r4;
+       do '(ts, r6) <- srd_tags (Z.to_nat (Z.min t PacketMaxTags)) r5; do '(pay, r7) <- srd_bytes r6;
+       Ok (mkP id job fl (ts ++ tags_pad t) d pay, r7))); [apply agree_u8|]. intros id.
+  apply (agree_bind rd_u16 (srd_uN 2)
+    (fun job r2 => do '(t, r3) <- rd_u16 r2; do '(fl, r4) <- rd_u64 r3; do '(d, r5) <- rd_dev r4;
+       do '(ts, r6) <- rd_tags (Z.to_nat (Z.min t PacketMaxTags)) r5; do '(pay, r7) <- rd_bytes r6;
+       Ok (mkP id job fl (ts ++ tags_pad t) d pay, r7))
+    (fun job r2 => do '(t, r3) <- srd_uN 2 r2; do '(fl, r4) <- srd_uN 8 r3; do '(d, r5) <- read_device r4;
+       do '(ts, r6) <- srd_tags (Z.to_nat (Z.min t PacketMaxTags)) r5; do '(pay, r7) <- srd_bytes r6;
+       Ok (mkP id job fl (ts ++ tags_pad t) d pay, r7))); [apply agree_uN; lia|]. intros job.
+  apply (agree_bind rd_u16 (srd_uN 2)
+    (fun t r3 => do '(fl, r4) <- rd_u64 r3; do '(d, r5) <- rd_dev r4;
+       do '(ts, r6) <- rd_tags (Z.to_nat (Z.min t PacketMaxTags)) r5; do '(pay, r7) <- rd_bytes r6;
+       Ok (mkP id job fl (ts ++ tags_pad t) d pay, r7))
+    (fun t r3 => do '(fl, r4) <- srd_uN 8 r3; do '(d, r5) <- read_device r4;
+       do '(ts, r6) <- srd_tags (Z.to_nat (Z.min t PacketMaxTags)) r5; do '(pay, r7) <- srd_bytes r6;
+       Ok (mkP id job fl (ts ++ tags_pad t) d pay, r7))); [apply agree_uN; lia|]. intros t.
+  apply (agree_bind rd_u64 (srd_uN 8)
+    (fun fl r4 => do '(d, r5) <- rd_dev r4;
+       do '(ts, r6) <- rd_tags (Z.to_nat (Z.min t PacketMaxTags)) r5; do '(pay, r7) <- rd_bytes r6;
+       Ok (mkP id job fl (ts ++ tags_pad t) d pay, r7))
+    (fun fl r4 => do '(d, r5) <- read_device r4;
+       do '(ts, r6) <- srd_tags (Z.to_nat (Z.min t PacketMaxTags)) r5; do '(pay, r7) <- srd_bytes r6;
+       Ok (mkP id job fl (ts ++ tags_pad t) d pay, r7))); [apply agree_uN; lia|]. intros fl.
+  apply (agree_bind rd_dev read_device
+    (fun d r5 => do '(ts, r6) <- rd_tags (Z.to_nat (Z.min t PacketMaxTags)) r5; do '(pay, r7) <- rd_bytes r6;
+       Ok (mkP id job fl (ts ++ tags_pad t) d pay, r7))
+    (fun d r5 => do '(ts, r6) <- srd_tags (Z.to_nat (Z.min t PacketMaxTags)) r5; do '(pay, r7) <- srd_bytes r6;
+       Ok (mkP id job fl (ts ++ tags_pad t) d pay, r7))); [apply agree_dev|]. intros d.
+  apply (agree_bind (rd_tags (Z.to_nat (Z.min t PacketMaxTags))) (srd_tags (Z.to_nat (Z.min t PacketMaxTags)))
+    (fun ts r6 => do '(pay, r7) <- rd_bytes r6; Ok (mkP id job fl (ts ++ tags_pad t) d pay, r7))
+    (fun ts r6 => do '(pay, r7) <- srd_bytes r6; Ok (mkP id job fl (ts ++ tags_pad t) d pay, r7))); [apply agree_tags|]. intros ts.
+  apply (agree_bind rd_bytes srd_bytes
+    (fun pay r7 => Ok (mkP id job fl (ts ++ tags_pad t) d pay, r7))
+    (fun pay r7 => Ok (mkP id job fl (ts ++ tags_pad t) d pay, r7))); [apply agree_bytes|]. intros pay. apply agree_ret.
+Qed.
+
+(* the round trip of the nested form through data.NewReader, for every split into short reads *)
+Theorem unmarshal_srd_marshal_stream p : wf_stream p = true -> consumes unmarshal_srd (marshal_stream p) p.
+Proof.
+  intros H s rest Hs Hc. pose proof (stream_readers_agree s Hs) as Ag.
+  rewrite Hc, unmarshal_stream_marshal_stream in Ag by exact H.
+  destruct (unmarshal_srd s) as [[p' s']| |]; try contradiction.
+  destruct Ag as (<- & C & N). exists s'. repeat split; assumption.
 Qed.
